@@ -273,6 +273,37 @@ func c17Save(r *rand.Rand) Case {
 	var ops, descs []string
 	hostile := false
 	for i, n := 0, r.Intn(7); i < n; i++ {
+		// renaming an item — read it, store it under the new name, drop the old one — with the very value Get handed out
+		if len(wb) > 0 && r.Intn(6) == 0 {
+			oldK := sortedKeys(wb)[r.Intn(len(wb))]
+			newK := fmt.Sprintf("b%d.bin", r.Intn(6))
+			if newK != oldK {
+				v := m.BinaryData().Get(oldK)
+				m.BinaryData().Update(newK, v)
+				m.BinaryData().Remove(oldK)
+				payload := append([]byte{}, wb[oldK]...)
+				wb[newK] = payload
+				delete(wb, oldK)
+				ops = append(ops, "MBinUpdate "+gStr(newK)+" "+gBytes(payload), "MBinRemove "+gStr(oldK))
+				descs = append(descs, fmt.Sprintf("BinaryData: rename %s -> %s (Update(new, Get(old)); Remove(old))", oldK, newK))
+				continue
+			}
+		}
+		if len(ws) > 0 && r.Intn(8) == 0 {
+			oldK := sortedKeys(ws)[r.Intn(len(ws))]
+			newK := fmt.Sprintf("t%d.txt", r.Intn(6))
+			if newK != oldK {
+				if vp := m.StringData().Get(oldK); vp != nil {
+					m.StringData().Update(newK, *vp)
+					m.StringData().Remove(oldK)
+					ws[newK] = ws[oldK]
+					delete(ws, oldK)
+					ops = append(ops, "MStrUpdate "+gStr(newK)+" "+gStr(ws[newK]), "MStrRemove "+gStr(oldK))
+					descs = append(descs, fmt.Sprintf("StringData: rename %s -> %s", oldK, newK))
+					continue
+				}
+			}
+		}
 		switch r.Intn(4) {
 		case 0:
 			k, v := fmt.Sprintf("t%d.txt", r.Intn(6)), c17Texts[r.Intn(len(c17Texts))]
